@@ -1694,6 +1694,200 @@ def check_C19(tier):
     return res.finish('./vcheck C19 --tier ' + tier)
 
 
+def check_C16(tier):
+    import glob as _glob, hashlib
+    res = Result('C16', tier)
+    framework(res, ['C16_collect_then_sort_deterministic', 'C16_sorted_with_duplicates_unique'])
+    files = build.repo_corpus_files() + front_files() + [os.path.join(VERIF, 'corpus', 'engine', f) for f in sorted(os.listdir(os.path.join(VERIF, 'corpus', 'engine')))]
+    sd = seed()
+    d = cache_dir('gen', 'graph-%d-%d' % (sd, 300 if tier == 'quick' else 4000))
+    rg = os.path.join(d, 'randgraph.rs')
+    if os.path.exists(rg):
+        files.append(rg)
+    lst = os.path.join(cache_dir('c16'), 'files.lst')
+    open(lst, 'w').write('\n'.join(files) + '\n')
+    nproc = 3 if tier == 'quick' else 6
+    nthreads = 4 if tier == 'quick' else 12
+    digests = {}
+    nondet = []
+    for sm in (False, True):
+        tool = build.capture_tool(sm)
+        outs = []
+        for k in range(nproc):
+            out = cache_dir('c16', 'run-%s-%d' % ('sm' if sm else 'tc', k))
+            for f in _glob.glob(os.path.join(out, '*')):
+                os.remove(f)
+            sh([tool, 'defs', out, '--list', lst], env=dict(ENV, VERIF_WRITE_GEN='1', VERIF_REPEAT=str(nthreads)))
+            outs.append(out)
+        names = sorted(os.path.basename(p) for p in _glob.glob(os.path.join(outs[0], '*.cap')))
+        for nm in names:
+            res.count('definitions_x_generators')
+            texts = []
+            for out in outs:
+                cp = os.path.join(out, nm); gp = cp[:-4] + '.gen'
+                capt = open(cp).read() if os.path.exists(cp) else None
+                gent = open(gp).read() if os.path.exists(gp) else None
+                # the cap records the in-process repetition verdict
+                texts.append((capt, gent))
+            c0 = capmod.parse_cap(os.path.join(outs[0], nm))
+            bad = None
+            if any(t != texts[0] for t in texts[1:]):
+                which = 'generated code' if any(t[1] != texts[0][1] for t in texts[1:]) else 'captured graph'
+                bad = '%s differs between processes' % which
+            for out in outs:
+                c = capmod.parse_cap(os.path.join(out, nm))
+                if c.repeat and c.repeat[1] > 0:
+                    bad = (bad + '; ' if bad else '') + '%d of %d repeated generate() calls in fresh threads differ' % (c.repeat[1], c.repeat[0])
+                    break
+            res.count('generate_calls', nproc * (1 + nthreads))
+            if bad:
+                nondet.append((nm, sm, bad, c0))
+    res.oblige(not nondet)
+    for nm, sm, bad, c0 in nondet[:6]:
+        res.violation(None, '%s (%s generator): %s' % (nm[:-4], 'state-machine' if sm else 'tail-call', bad), dict(definition=c0.source, file=c0.file, generator='sm' if sm else 'tc'))
+    # logos-cli: two runs byte-identical, then --check accepts its own output
+    cli = build_cli()
+    work = cache_dir('c16', 'cli')
+    srcs = ['#[derive(Logos, Debug)]\nenum A {\n  #[regex("[a-z]+")] W, #[regex("[0-9]+")] N, #[token("if")] If, #[token("in")] In, #[regex(r"\\s+", logos::skip)] Ws, #[token("==")] Eq, #[token("=")] As }\n',
+            '#[derive(Logos)]\nenum B {\n  #[regex("[a-c]+")] X, #[regex("[b-d]+")] Y, #[regex("[0-5]+")] P, #[regex("[3-9]+")] Q }\n']
+    for i, src in enumerate(srcs):
+        ip = os.path.join(work, 'in%d.rs' % i); op = os.path.join(work, 'out%d.rs' % i)
+        open(ip, 'w').write(src)
+        a = sh([cli, ip], check=False).stdout; b = sh([cli, ip], check=False).stdout
+        if os.path.exists(op): os.remove(op)
+        w = sh([cli, ip, '--output', op], check=False); c = sh([cli, ip, '--output', op, '--check'], check=False)
+        ok = (a == b) and w.returncode == 0 and c.returncode == 0
+        res.oblige(ok); res.count('cli_determinism_cases')
+        if not ok:
+            res.violation(None, 'logos-cli: two runs differ or --check rejects its own output', dict(input=src, same_stdout=(a == b), write_exit=w.returncode, check_exit=c.returncode))
+    res.cov['rule'] = ('every definition of the repo / curated / front-end / seeded random corpora (incl. rejected ones, definitions with several conflicts, states with >= 3 edges, >= 9 LUT masks), both generators: '
+                       'generate() in %d fresh processes x (1 + %d fresh threads) each (every HashMap gets a new RandomState): generated text and captured graph byte-identical; logos-cli twice + --check' % (nproc, nthreads))
+    res.trusted += ['Coq kernel', 'capture tool repeat mode']
+    res.assumptions += ['"every hash seed" is modelled as "every permutation"; that the five sorted sites are the only order-sensitive ones is supported by the runs, not proved about the Rust code']
+    return res.finish('./vcheck C16 --tier ' + tier)
+
+
+def api_pairs(enums):
+    plain = [(en, mod, c) for en, (mod, c) in sorted(enums.items()) if c.accepted and 'extras' not in (c.source or '') and "<'" not in (c.source or '')]
+    out = []
+    for group in ([x for x in plain if x[2].utf8], [x for x in plain if not x[2].utf8]):
+        for (a, ma, ca), (b, mb, cb) in zip(group, group[1:] + group[:1]):
+            if a != b:
+                out.append((a, b))
+    return out
+
+
+def check_C14(tier):
+    res = Result('C14', tier)
+    framework(res, ['C14_step_only_current', 'C14_clone_is_copy', 'C14_morph_preserves', 'C14_morph_back', 'C14_spanned_eq_next', 'C14_bump_in_range'])
+    drv = build.extraction_build()
+    fss = ['tc', 'sm']
+    sets = ce.compiled_sets(tier, fss)
+    rng = random.Random(seed() * 53 + 14)
+    label, h, enums = sets[0]
+    exe0, caps0 = h['tc']
+    pairs = [(a, b) for a, b in api_pairs(enums) if a in caps0 and b in caps0 and None not in engine.behaviour_codes(caps0[a]) and None not in engine.behaviour_codes(caps0[b])]
+    rng.shuffle(pairs)
+    pairs = pairs[:14 if tier == 'quick' else 60]
+    nh = 140 if tier == 'quick' else 900
+    jobs = []; lines = []; meta = {}
+    for pi, (a, b) in enumerate(pairs):
+        ca, cb = caps0[a], caps0[b]
+        job = engine.problem_header(ca, with_dfa=False) + ['GS 0'] + engine.problem_header(cb, with_dfa=False) + ['GS 1', 'U %d' % (1 if ca.utf8 else 0)]
+        inputs = ce.make_probes(ca, rng, 'quick') + ce.make_probes(cb, rng, 'quick')
+        inputs = [x for x in inputs if 0 < len(x) <= 24 and (not ca.utf8 or probes.is_utf8(x))]
+        for k in range(nh):
+            w = rng.choice(inputs) + (rng.choice(inputs) if rng.random() < 0.5 else b'')
+            if ca.utf8 and not probes.is_utf8(w):
+                continue
+            partial = 1 if rng.random() < 0.2 else 0
+            ops = []
+            for _ in range(rng.randint(4, 14)):
+                r = rng.random()
+                if r < 0.45: ops.append(('n', 0))
+                elif r < 0.55: ops.append(('p', 0))
+                elif r < 0.7: ops.append(('b', rng.randint(0, 3)))
+                elif r < 0.8: ops.append(('c', 0))
+                elif r < 0.9: ops.append(('s', rng.randint(0, 5)))
+                else: ops.append(('m', 0))
+            hid = 'h%d_%d' % (pi, k)
+            code = {'n': 0, 'b': 1, 'c': 2, 's': 3, 'm': 4, 'p': 5}
+            job.append('H %s %d %d %s %d %s' % (hid, partial, len(w), ' '.join(map(str, w)), len(ops), ' '.join('%d %d' % (code[o], x) for o, x in ops)))
+            lines.append('H %s %s+%s %d %s %s' % (hid, a, b, partial, w.hex() or '-', ' '.join('%s%d' % (o, x) if o in 'bs' else o for o, x in ops)))
+            meta[hid] = (a, b, w, partial, ops)
+        jobs.append(job)
+    model = {}
+    for ln in engine.run_modeldrv(drv, jobs):
+        if ln.startswith('H '):
+            _, hid, rest = (ln.split(' ', 2) + [''])[:3]
+            nums = [int(x) for x in rest.split()] if rest and not rest.startswith('NOSLOTS') else None
+            model[hid] = nums
+    nbad = 0; nops_total = 0; morphs = 0; clones = 0
+    for fs in fss:
+        real = run_lines(h[fs][0], lines, 'H')
+        for hid, (a, b, w, partial, ops) in meta.items():
+            r = real.get(hid); m = model.get(hid)
+            bad = None
+            if r is None or m is None or 'PANIC' in r or r.startswith('NODEF'):
+                bad = 'no result / panic: %r' % (r,)
+            else:
+                obs = []; curobs = []
+                for x in m:
+                    if x == 999999:
+                        obs.append(curobs); curobs = []
+                    else:
+                        curobs.append(x)
+                parts = [x for x in r.split(';') if x]
+                if len(parts) != len(ops) or len(obs) != len(ops):
+                    bad = 'op count real %d model %d' % (len(parts), len(obs))
+                else:
+                    # python tracks only which token type each pooled lexer has (to name variants)
+                    pool = [0]; cur = 0
+                    for (o, x), part, ob in zip(ops, parts, obs):
+                        nops_total += 1
+                        f = part.split(':')
+                        flag = f[3].endswith('!'); rs, re_ = int(f[2]), int(f[3].rstrip('!'))
+                        if o == 'c': pool.append(pool[cur]); cur = len(pool) - 1; clones += 1
+                        elif o == 's': cur = x % len(pool)
+                        elif o == 'm': pool[cur] = 1 - pool[cur]; morphs += 1
+                        cdef = caps0[a] if pool[cur] == 0 else caps0[b]
+                        if flag:
+                            bad = 'slice()/remainder() disagree with source[span] after %s' % part; break
+                        if (rs, re_) != (ob[-2], ob[-1]):
+                            bad = 'after op %s: span real %d..%d model %d..%d' % (part, rs, re_, ob[-2], ob[-1]); break
+                        if o in 'np':
+                            if f[1].endswith('?'):
+                                bad = 'spanned() span differs from span() at %s' % part; break
+                            if ob[0] == 2:
+                                exp = 'F'
+                            elif ob[0] == 3:
+                                bad = 'model broken'; break
+                            elif ob[0] == 1:
+                                rec = engine.MItem(True, ob[1] - 1, ob[2], ob[3], ob[4], ob[5])
+                                exp = 'O.' + str(engine.expected_variant(cdef, rec))
+                            else:
+                                exp = 'E.'
+                            got = f[1] if not f[1].startswith('E.') else 'E.'
+                            if got != exp:
+                                bad = 'after op %s: result real %s model %s' % (part, f[1], exp); break
+            if bad:
+                nbad += 1
+                if nbad <= 6:
+                    res.violation(None, '%s+%s/%s input %r history %s: %s' % (a, b, fs, w, ' '.join('%s%d' % (o, x) if o in 'bs' else o for o, x in ops), bad),
+                                  dict(definitions=[enums[a][1].source, enums[b][1].source], featureset=fs, input_hex=w.hex(), partial=bool(partial),
+                                       history=[('%s%d' % (o, x) if o in 'bs' else o) for o, x in ops], observed=r, model=m))
+    res.oblige(nbad == 0)
+    res.count('histories', len(meta) * len(fss)); res.count('operations', nops_total); res.count('morph_ops', morphs); res.count('clone_ops', clones)
+    if meta:
+        k0 = sorted(meta)[0]
+        res.sample(dict(pair=meta[k0][:2], input=repr(meta[k0][2]), history=[('%s%d' % (o, x) if o in 'bs' else o) for o, x in meta[k0][4]]))
+    res.cov['rule'] = ('random histories (4..14 operations) of next / spanned next / in-range bump / clone (continue with the clone) / switch between lexers / morph to the other token type and back, over pairs of compiled definitions '
+                       'sharing a source type (str and [u8]), ordinary and partial mode, both generators: after EVERY operation span(), slice() == source[span], remainder() == source[end..], and the result of next are compared with Runtime.LexerApi.run_history (extracted)')
+    res.trusted += ce.TRUSTED
+    res.assumptions += ASSUME_ENGINE + ['extras are () in the compiled pairs (morph with Extras conversion is not exercised)']
+    return res.finish('./vcheck C14 --tier ' + tier)
+
+
 def setup():
     ok, msg = build.coq_build()
     if not ok:
